@@ -100,8 +100,7 @@ class Species(AtomCollection):
             atoms_str = ""
 
         else:
-            # Only use the first 100 atoms
-            atoms_str = "".join([atom.label for atom in self.atoms[:100]])
+            atoms_str = "".join([atom.label for atom in self.atoms])
 
         solv_str = self.solvent.name if self.solvent is not None else "none"
 
